@@ -35,7 +35,36 @@ func gen(t *rapid.T) Case {
 	ox := rapid.SampledFrom([]float64{0, 0, 1000, -50}).Draw(t, "ox")
 	A := vkit.GenPolygonal(t, ka, ox, ox/2, R, snap)
 	c.A = A.G
-	c.Config = rapid.SampledFrom([]string{"overlap", "overlap", "overlap", "nested", "inhole", "diagonal", "bboxdisjoint", "far"}).Draw(t, "config")
+	c.Config = rapid.SampledFrom([]string{"overlap", "overlap", "overlap", "nested", "inhole", "diagonal", "bboxdisjoint", "far", "sliver"}).Draw(t, "config")
+	if c.Config == "sliver" {
+		// a long thin hole (a canal) through the middle of A, and a box (or small polygon) laid across it: the corners of B
+		// are inside A, no vertex of A is inside B, yet A's boundary passes through B
+		shell := vkit.StarRing(t, ox, ox/2, R, 5, 12, 0.6)
+		rin := vkit.Inradius(shell, ox, ox/2)
+		phi := rapid.Float64Range(0, math.Pi).Draw(t, "sliverdir")
+		L, w := 0.7*rin, rin*rapid.Float64Range(0.01, 0.08).Draw(t, "sliverw")
+		ux, uy := math.Cos(phi), math.Sin(phi)
+		hole := []vkit.P2{vkit.MkP(ox-L*ux+w*uy, ox/2-L*uy-w*ux), vkit.MkP(ox+L*ux+w*uy, ox/2+L*uy-w*ux),
+			vkit.MkP(ox+L*ux-w*uy, ox/2+L*uy+w*ux), vkit.MkP(ox-L*ux-w*uy, ox/2-L*uy+w*ux)}
+		rings := [][]vkit.P2{vkit.Respell(t, shell), vkit.Respell(t, hole)}
+		if snap {
+			vkit.Snap(rings, 1.0/1024)
+		}
+		if ka == "MultiPolygon" {
+			c.A = vkit.GJ{T: "MultiPolygon", Polys: [][][]vkit.P2{rings}}
+		} else {
+			c.A = vkit.GJ{T: "Polygon", Rings: rings}
+		}
+		if kb == "MultiPolygon" {
+			kb = "Bounds"
+		}
+		hb := rin * rapid.Float64Range(0.2, 0.45).Draw(t, "sliverbox")
+		c.B = vkit.GenPolygonal(t, kb, ox+rin*rapid.Float64Range(-0.1, 0.1).Draw(t, "sdx"), ox/2+rin*rapid.Float64Range(-0.1, 0.1).Draw(t, "sdy"), hb, snap).G
+		if rapid.Bool().Draw(t, "sliverswap") { // the box as receiver, the polygon as argument
+			c.A, c.B = c.B, c.A
+		}
+		return c
+	}
 	ang := rapid.Float64Range(0, 2*math.Pi).Draw(t, "ang")
 	var bx, by, RB float64
 	switch c.Config {
@@ -418,7 +447,20 @@ func run(c Case) (v vkit.Verdict) {
 			v.Class("scaling_not_exact_run_unscaled")
 		}
 	}
-	ga, gb := scaleGJ(c.A, sc).Geom().(geom.Polygonal), scaleGJ(c.B, sc).Geom().(geom.Polygonal)
+	sga, sameA := vkit.SharedGeom(scaleGJ(c.A, sc))
+	sgb, sameB := vkit.SharedGeom(scaleGJ(c.B, sc))
+	ga, gb := sga.(geom.Polygonal), sgb.(geom.Polygonal)
+	defer func() {
+		if m := sameA(); m != "" && !v.Bad {
+			v = v.Fail("the call changed the geometry it was given (point lists are sub-slices of one array with spare capacity): %s", m)
+		}
+	}()
+	defer func() {
+		if m := sameB(); m != "" && !v.Bad {
+			v = v.Fail("the call changed the geometry it was given (point lists are sub-slices of one array with spare capacity): %s", m)
+		}
+	}()
+
 	var areaA, areaB float64
 	vkit.SlabSweep(append(append([]vkit.Edge{}, ea...), eb...), func(mask uint, area, cx, cy float64) {
 		if mask&1 != 0 {
@@ -513,7 +555,7 @@ func TestProp(t *testing.T) {
 		ID: "C01",
 		Rule: "rapid: operand pairs with kinds drawn from {Polygon, MultiPolygon, *Bounds}^2; in 1 case of 3 both operands are handed to the operations multiplied exactly by 2^k (k in +-40 or +-200; the result is divided by 2^k again, so the oracle works at unit scale); a quarter of the multi-polygon operands is respelled as ONE Polygon value listing all rings (what the operations return for results of several pieces), a quarter of the polygons lists its rings in a drawn order (hole before shell); polygons valid by construction (two families: 2/3 star-shaped shell of 3-12 vertices (a few per cent: 100-400) with " +
 			"0-3 star-shaped holes in disjoint sectors of the inscribed disc; 1/3 non-star 'comb/snake' bands of 6-18 vertices between two chains over common knots, rotated or with vertically aligned knots, holes in the cells' inscribed discs; multi-polygons of 1-3 members in disjoint cells, every ring independently reversed/" +
-			"rotated/closed-or-unclosed); B placed by a drawn configuration (overlap, nested, in a hole, diagonal, bounding-box disjoint, far); continuous " +
+			"rotated/closed-or-unclosed); B placed by a drawn configuration (overlap, nested, in a hole, diagonal, bounding-box disjoint, far, or laid across a long thin hole of A so that its corners are inside A and no vertex of A is inside it); continuous " +
 			"coordinates and a variant snapped to 2^-10; cases with a vertex of one operand within 1e-7*scale of an edge of the other are skipped (counted). All four " +
 			"operations are run per case; oracle = slab (trapezoid) integration of the area where the result's even-odd membership differs from op(inA,inB), " +
 			"<= 1e-9*(areaA+areaB), plus up to 96 trapezoid-centroid test points per op with a 1e-6*scale margin, plus area identities, closed rings. " +
